@@ -10,7 +10,9 @@ calendar code under it (`_ymd2ord`, `_ord2ymd`, `datetime.utctimetuple`, `calend
  * a well-formed date-time normalises to the FLOOR second of the instant it denotes (wall clock − utcoffset, microseconds
    dropped, naive read as UTC), or raises OverflowError exactly when the UTC view leaves 0001-01-01 … 9999-12-31;
    hence two date-times denoting the same instant in different zones give the same integer;
- * a float t ≥ 0 normalises to ⌊t⌋; a negative float is rounded toward zero (NOT the floor: see `float_negative_…`);
+ * every finite float t normalises to ⌊t⌋ (`math.floor`, commit 2bc064c; before it `int()` truncated toward zero, so −0.5 became
+   second 0 — see the history note at `old_truncation_history`); a float and a date-time denoting the same instant normalise alike,
+   also before the epoch; `generate` refuses every negative float like every negative time;
  * the counter used for a date-time is ⌊instant / period⌋ and the reported interval contains the instant (joining
    Props/C13.lean), and the generated token is the RFC 4226 value of that counter.
 -/
@@ -105,7 +107,16 @@ theorem timegm_rejects (y mo d h mi s : Int) (hy : ¬ (MINYEAR ≤ y ∧ y ≤ M
 
 theorem int_identity (now : PyFloat) (n : Int) : normalizeTime now (.int n) = .ok n := rfl
 theorem other_is_type_error (now : PyFloat) : normalizeTime now .other = .error .typeError := rfl
-theorem none_reads_clock (now : PyFloat) : normalizeTime now .none = normalizeTime now (.float now) := rfl
+/-- `None`: `int(cls.now())` — still `int()`, i.e. truncation of the clock value -/
+theorem none_truncates_clock (now : PyFloat) : normalizeTime now .none = floatToInt now := rfl
+/-- for a clock that is not negative (what `TOTP.using(now=…)` asserts) `None` is the same as passing the clock value as a float -/
+theorem none_reads_clock (now : PyFloat) (hnow : ∀ num den, now = .finite num den → 0 ≤ num) :
+    normalizeTime now .none = normalizeTime now (.float now) := by
+  cases now with
+  | finite num den =>
+    simp only [normalizeTime, floatToInt, floatFloor, Int.tdiv_eq_ediv_of_nonneg (hnow num den rfl)]
+  | nan => rfl
+  | inf neg => rfl
 theorem nan_is_value_error (now : PyFloat) : normalizeTime now (.float .nan) = .error .valueError := rfl
 theorem inf_is_overflow_error (now : PyFloat) (neg : Bool) : normalizeTime now (.float (.inf neg)) = .error .overflowError := rfl
 
@@ -181,12 +192,11 @@ theorem c_normalize_date (y m d : Int) (hm : 1 ≤ m) (hm' : m ≤ 12) :
       (if 0 < ymdToOrd y m 1 + d - 1 ∧ ymdToOrd y m 1 + d - 1 ≤ MAXORDINAL then .ok (ordToYmd (ymdToOrd y m 1 + d - 1))
        else .error .overflowError) := Lemmas.TotpTimeC.normalizeYmdC_eq y m d hm hm'
 
-/-- floats: for t = num/den ≥ 0 the result is ⌊t⌋ -/
-theorem float_floor (now : PyFloat) (num : Int) (den : Nat) (hden : 0 < den) (hnum : 0 ≤ num) :
+/-- floats: for EVERY finite float t = num/den the result is ⌊t⌋ (toward −∞) -/
+theorem float_floor (now : PyFloat) (num : Int) (den : Nat) (hden : 0 < den) :
     normalizeTime now (.float (.finite num den)) = .ok (num / den) ∧
     (num / den) * den ≤ num ∧ num < (num / den + 1) * den := by
-  refine ⟨?_, ?_, ?_⟩
-  · simp only [normalizeTime, floatToInt, Int.tdiv_eq_ediv_of_nonneg hnum]
+  refine ⟨rfl, ?_, ?_⟩
   · have := Int.emod_add_mul_ediv num den
     have := Int.emod_nonneg num (show (den : Int) ≠ 0 by omega)
     rw [Int.mul_comm]; omega
@@ -194,21 +204,30 @@ theorem float_floor (now : PyFloat) (num : Int) (den : Nat) (hden : 0 < den) (hn
     have := Int.emod_lt_of_pos num (show (0 : Int) < den by omega)
     rw [Int.add_mul, Int.mul_comm]; omega
 
-/-- floats: a negative t is rounded toward zero, i.e. to ⌈t⌉ = −⌊−t⌋ -/
-theorem float_negative_toward_zero (now : PyFloat) (num : Int) (den : Nat) (hnum : num < 0) :
-    normalizeTime now (.float (.finite num den)) = .ok (-((-num) / den)) := by
-  simp only [normalizeTime, floatToInt]
-  have : num = -(-num) := by omega
-  rw [this, Int.neg_tdiv, Int.tdiv_eq_ediv_of_nonneg (by omega)]
-  simp
+/-- a float and a well-formed date-time denoting the same instant (num/den s = instantUs/10⁶ s) normalise to the same second —
+    before the epoch as well as after it -/
+theorem float_same_instant_as_datetime (now : PyFloat) (num : Int) (den : Nat) (hden : 0 < den) (dt : DateTime) (h : dt.WF)
+    (he : num * US = instantUs dt * den) :
+    normalizeTime now (.float (.finite num den)) = .ok (instantSec dt) ∧
+    (EPOCH_MIN ≤ instantSec dt → instantSec dt ≤ EPOCH_MAX →
+      normalizeTime now (.datetime dt) = normalizeTime now (.float (.finite num den))) := by
+  have e : num / (den : Int) = instantUs dt / US := by
+    rw [← Int.mul_ediv_mul_of_pos_left num (den : Int) (show (0 : Int) < US by decide), he, Int.mul_comm (den : Int) US,
+      Int.mul_ediv_mul_of_pos_left _ _ (show (0 : Int) < (den : Int) by omega)]
+  have hf : normalizeTime now (.float (.finite num den)) = .ok (instantSec dt) := by
+    rw [(float_floor now num den hden).1, e]; rfl
+  refine ⟨hf, fun h1 h2 => ?_⟩
+  rw [hf, normalize_datetime now dt h, if_pos ⟨h1, h2⟩]
 
 /-
-  The full statement "for every float t the result is ⌊t⌋" is FALSE of the code (`int()` truncates):
-      theorem float_floor_all (num den) (hden : 0 < den) : normalizeTime now (.float (.finite num den)) = .ok (num / den)
-  `float_floor` above is the strongest true restriction (t ≥ 0); the witness −0.5:
+  History.  Before commit 2bc064c the float branch was `int(time)` (`floatToInt`: truncation toward zero), and the statements
+  "for every float the result is ⌊t⌋", "a float and a date-time of the same instant normalise alike" and "the reported interval
+  contains the timestamp" were FALSE for floats in (−1, 0): −0.5 became second 0, a token of counter 0 with interval [0, period)
+  was issued, while 1969-12-31T23:59:59.5 became second −1 and was refused.  The old theorems `float_negative_toward_zero`,
+  `float_floor_counterexample`, `generate_negative_float_counterexample`, `representations_disagree_before_epoch` recorded that.
 -/
-theorem float_floor_counterexample (now : PyFloat) :
-    normalizeTime now (.float (.finite (-1) 2)) = .ok 0 ∧ ((-1 : Int) / 2 = -1) := ⟨rfl, by decide⟩
+theorem old_truncation_history :
+    floatToInt (.finite (-1) 2) = .ok 0 ∧ floatFloor (.finite (-1) 2) = .ok (-1) := by decide
 
 /-! ### counter, interval and token for a date-time (joining Props/C13.lean) -/
 
@@ -294,35 +313,71 @@ theorem generate_before_epoch (mac : Bytes → Bytes) (digits : Nat) (p : Int) (
   simp only [generateAt, hn]
   rw [if_pos hc]
 
-/-- floats t = num/den ≥ 0: counter ⌊t / period⌋ -/
-theorem counter_of_float (now : PyFloat) (num : Int) (den : Nat) (hden : 0 < den) (hnum : 0 ≤ num) (p t : Int) (hp : 0 < p)
+/-- every finite float t = num/den: counter ⌊t / period⌋ -/
+theorem counter_of_float (now : PyFloat) (num : Int) (den : Nat) (hden : 0 < den) (p t : Int) (hp : 0 < p)
     (hn : normalizeTime now (.float (.finite num den)) = .ok t) : timeToCounter t p = num / (den * p) := by
-  rw [(float_floor now num den hden hnum).1] at hn
+  rw [(float_floor now num den hden).1] at hn
   cases hn
   unfold timeToCounter
   rw [Lemmas.Totp.fdiv_eq_ediv _ p hp, Int.ediv_ediv]
   have : ¬ ((den : Int) < 0 ∧ ¬ p ∣ num / den) := by omega
   rw [if_neg this]; omega
 
-/-
-  "reports the correct validity interval" is FALSE of the code for a float in (−1, 0): −0.5 is accepted although
-  "timestamp must be >= 0", and the reported interval [0, period) does not contain it:
--/
-theorem generate_negative_float_counterexample (mac : Bytes → Bytes) (now : PyFloat) :
-    ∃ out, generateAt mac 6 30 now (.float (.finite (-1) 2)) = .ok out ∧ out.counter = 0 ∧ out.startTime = 0 ∧
-      ¬ (out.startTime * 2 ≤ -1) :=
-  ⟨_, rfl, rfl, rfl, by show ¬ ((0 : Int) * 2 ≤ -1); decide⟩
+/-- every finite float: the validity interval of its counter contains it (start ≤ t < expire, written without division) -/
+theorem interval_of_float (now : PyFloat) (num : Int) (den : Nat) (hden : 0 < den) (p t : Int) (hp : 0 < p)
+    (hn : normalizeTime now (.float (.finite num den)) = .ok t) :
+    tokenStartTime (timeToCounter t p) p * den ≤ num ∧ num < tokenExpireTime (timeToCounter t p) p * den ∧
+    tokenExpireTime (timeToCounter t p) p - tokenStartTime (timeToCounter t p) p = p := by
+  obtain ⟨f0, f1, f2⟩ := float_floor now num den hden
+  rw [f0] at hn; cases hn
+  obtain ⟨i1, i2, i3⟩ := Props.C13.interval (num / den) p hp
+  have hd : (0 : Int) ≤ (den : Int) := by omega
+  refine ⟨?_, ?_, i3⟩
+  · have := Int.mul_le_mul_of_nonneg_right i1 hd
+    omega
+  · have := Int.mul_le_mul_of_nonneg_right (show num / (den : Int) + 1 ≤ tokenExpireTime (timeToCounter (num / den) p) p by omega) hd
+    omega
 
-/-- the two ways of writing the instant −0.5 s disagree: the float is taken as second 0 (and a token is issued), the date-time
-    1969-12-31T23:59:59.5 as second −1 (and `generate` refuses it) -/
-theorem representations_disagree_before_epoch (mac : Bytes → Bytes) (now : PyFloat) :
+/-- `TOTP.generate(float)` for t = num/den ≥ 0: counter ⌊t/period⌋, its interval, the token of that counter -/
+theorem generate_float (mac : Bytes → Bytes) (digits : Nat) (p : Int) (now : PyFloat) (num : Int) (den : Nat) (hden : 0 < den)
+    (hp : 0 < p) (hnum : 0 ≤ num) :
+    generateAt mac digits p now (.float (.finite num den)) =
+      .ok { token := generate mac digits (num / (den * p)).toNat, counter := num / (den * p),
+            startTime := num / (den * p) * p, expireTime := (num / (den * p) + 1) * p } := by
+  have hn := (float_floor now num den hden).1
+  have hc := counter_of_float now num den hden p _ hp hn
+  have hc0 : 0 ≤ num / ((den : Int) * p) := Int.ediv_nonneg hnum (Int.le_of_lt (Int.mul_pos (by omega) hp))
+  simp only [generateAt, hn, hc]
+  rw [if_neg (by omega)]
+  rfl
+
+/-- `TOTP.generate` refuses EVERY negative float ("timestamp must be >= 0"), −0.5 included — like every negative integer and
+    every date-time before the epoch (`generate_before_epoch`) -/
+theorem generate_negative_float_refused (mac : Bytes → Bytes) (digits : Nat) (p : Int) (now : PyFloat) (num : Int) (den : Nat)
+    (hden : 0 < den) (hp : 0 < p) (hnum : num < 0) :
+    generateAt mac digits p now (.float (.finite num den)) = .error .valueError := by
+  have hn := (float_floor now num den hden).1
+  have hneg : num / (den : Int) < 0 := Int.ediv_neg_of_neg_of_pos hnum (by omega)
+  have hc : timeToCounter (num / den) p < 0 := (Lemmas.Totp.counter_lt_iff 0 _ p hp).2 (by omega)
+  simp only [generateAt, hn]
+  rw [if_pos hc]
+
+theorem generate_negative_int_refused (mac : Bytes → Bytes) (digits : Nat) (p : Int) (now : PyFloat) (n : Int)
+    (hp : 0 < p) (hn : n < 0) : generateAt mac digits p now (.int n) = .error .valueError := by
+  have hc : timeToCounter n p < 0 := (Lemmas.Totp.counter_lt_iff 0 _ p hp).2 (by omega)
+  simp only [generateAt, normalizeTime]
+  rw [if_pos hc]
+
+/-- the two ways of writing the instant −0.5 s now agree: second −1, and `generate` refuses both -/
+theorem representations_agree_before_epoch (mac : Bytes → Bytes) (now : PyFloat) :
     instantUs ⟨1969, 12, 31, 23, 59, 59, 500000, none⟩ = -500000 ∧
     normalizeTime now (.datetime ⟨1969, 12, 31, 23, 59, 59, 500000, none⟩) = .ok (-1) ∧
-    normalizeTime now (.float (.finite (-1) 2)) = .ok 0 ∧
-    generateAt mac 6 30 now (.datetime ⟨1969, 12, 31, 23, 59, 59, 500000, none⟩) = .error .valueError := by
+    normalizeTime now (.float (.finite (-1) 2)) = .ok (-1) ∧
+    generateAt mac 6 30 now (.datetime ⟨1969, 12, 31, 23, 59, 59, 500000, none⟩) = .error .valueError ∧
+    generateAt mac 6 30 now (.float (.finite (-1) 2)) = .error .valueError := by
   have h1 : normalizeTime now (.datetime ⟨1969, 12, 31, 23, 59, 59, 500000, none⟩) = .ok (-1) := by
     rw [normalize_datetime now _ (by decide)]; decide +kernel
-  refine ⟨by decide +kernel, h1, rfl, ?_⟩
+  refine ⟨by decide +kernel, h1, rfl, ?_, generate_negative_float_refused mac 6 30 now (-1) 2 (by decide) (by decide) (by decide)⟩
   simp only [generateAt, h1]
   rfl
 
@@ -348,7 +403,10 @@ example : fieldsOfEpoch 1709231399 = (2024, 2, 29, 18, 29, 59) := by decide +ker
 /-- the first day in a zone east of Greenwich is before year 1 in UTC: OverflowError, as CPython raises -/
 example : normalizeTime .nan (.datetime ⟨1, 1, 1, 0, 0, 0, 0, some 3600000000⟩) = .error .overflowError := by decide +kernel
 example : (⟨1, 1, 1, 0, 0, 0, 0, some 3600000000⟩ : DateTime).WF := by decide
-/-- before the epoch the microseconds are still dropped downwards (floor), unlike floats -/
+/-- before the epoch the microseconds are dropped downwards (floor), and so is the fraction of a float -/
+example : normalizeTime .nan (.float (.finite (-1) 2)) = .ok (-1) := by decide
+example : (float_same_instant_as_datetime .nan (-1) 2 (by decide) ⟨1969, 12, 31, 23, 59, 59, 500000, none⟩ (by decide)
+    (by decide +kernel)).1 = (by decide +kernel : normalizeTime .nan (.float (.finite (-1) 2)) = .ok (instantSec ⟨1969, 12, 31, 23, 59, 59, 500000, none⟩)) := rfl
 example : normalizeTime .nan (.datetime ⟨1969, 12, 31, 23, 59, 59, 500000, none⟩) = .ok (-1) := by decide +kernel
 example : normalizeTime .nan (.float (.finite 3999999 2000000)) = .ok 1 := by decide
 /-- RFC 6238 appendix B, time 59 written as a date-time in +01:00 (HMAC-SHA1 of counter 1 under the RFC key given as the digest,
